@@ -376,6 +376,24 @@ func RunC11(col *core.Collector, tier, variant string, seed uint64, shard, nshar
 	if variant != "plain" {
 		n /= 3
 	}
+	fresh := 40
+	if tier == "thorough" {
+		fresh = 1500
+	}
+	for i := shard; i < fresh; i += nshards {
+		cs := core.Derive(seed, core.StrLabel("C11fresh"), core.StrLabel(variant), uint64(i))
+		v, reads := runC11Fresh(cs)
+		col.Eval(1)
+		col.Count("c11.fresh.reads_next_to_writers", reads)
+		if reads > 100 {
+			col.NonTrivial(cs)
+		}
+		if v != "" {
+			path := writeReplay(replayDir, fmt.Sprintf("C11-fresh-%x.json", cs), map[string]any{"engine": "c11-fresh", "case_seed": cs, "violation": v})
+			col.Violation(core.Violation{Property: "C11", Signature: "c11-fresh:" + sigText(v), Detail: v, Replay: path})
+			break
+		}
+	}
 	for i := shard; i < n; i += nshards {
 		r := core.NewRng(core.Derive(seed, core.StrLabel("C11conc"), core.StrLabel(variant), uint64(i)))
 		cfg := c11Cfg{Seed: r.U64(), Index: i, Scenario: r.Intn(6), Outcome: r.Intn(3), Readers: 1 + r.Intn(6), DelayPerM: []int{0, 100, 300, 600}[r.Intn(4)]}
